@@ -36,7 +36,7 @@ func listedSets(p *Pass, before uint64) []store.Obj {
 
 func specKeys(w *World, set store.Obj) map[string]bool {
 	out := map[string]bool{}
-	for _, so := range SpecObjects(set, w.sliceLookup(set)) {
+	for _, so := range SpecObjects(set, w.sliceLookupWithHistory(set)) {
 		out[so.Key.String()] = true
 	}
 	return out
@@ -111,7 +111,7 @@ func (m *MonC08) OnReq(w *World, r *Req) {
 				incoming = kept
 			}
 			for _, newest := range incoming {
-				for _, so := range SpecObjects(newest, w.sliceLookup(newest)) {
+				for _, so := range SpecObjects(newest, w.sliceLookupWithHistory(newest)) {
 					soCluster := "mgmt"
 					if so.Class == "hosted-cluster" {
 						soCluster = "hosted"
@@ -126,6 +126,29 @@ func (m *MonC08) OnReq(w *World, r *Req) {
 							for _, c := range controllerOfList(set) {
 								if c.matches(k) {
 									cause = "reported-control"
+								}
+							}
+							if cause == "unreported-control" {
+								// the known finding is about passes that never get to the object (they stop at an
+								// earlier failing phase); a pass that saw itself controlling the object and still
+								// left it out of status.controllerOf is something else
+								var last *Pass
+								for _, q := range w.Passes {
+									if q.Ctrl != store.Str(set, "kind") || q.Key.Name != store.Str(set, "metadata", "name") || q.Key.Namespace != store.Str(set, "metadata", "namespace") {
+										continue
+									}
+									for _, rq := range q.Reqs {
+										if rq.Verb == "update-status" && rq.Succeeded() && rq.Seq < r.Seq {
+											last = q
+										}
+									}
+								}
+								if last != nil {
+									for _, o := range last.Observations(r.Cluster, k, 0) {
+										if o != nil && IsControlledBy(o, set, "native") {
+											cause = "unreported-control-despite-observation"
+										}
+									}
 								}
 							}
 						}
